@@ -8,3 +8,6 @@ Proof. intros b; destruct b; reflexivity. Qed.
 
 Lemma rates_standard_ok_true : rates_standard_ok = true.
 Proof. reflexivity. Qed.
+
+Lemma standard_expects_reply : forall r : req_type, req_expects_reply r = std_expects_reply r.
+Proof. intros r; destruct r; reflexivity. Qed.
